@@ -1,7 +1,6 @@
 from __future__ import annotations
 
 import functools
-import itertools
 import operator
 
 from packaging.specifiers import InvalidSpecifier as PkgInvalidSpecifier
@@ -18,7 +17,6 @@ from dep_logic.specifiers.generic import GenericSpecifier
 from dep_logic.specifiers.range import RangeSpecifier
 from dep_logic.specifiers.special import AnySpecifier, EmptySpecifier
 from dep_logic.specifiers.union import UnionSpecifier
-from dep_logic.utils import is_not_suffix, version_split
 
 
 def from_specifierset(spec: SpecifierSet) -> VersionSpecifier:
@@ -26,6 +24,26 @@ def from_specifierset(spec: SpecifierSet) -> VersionSpecifier:
 
     return functools.reduce(
         operator.and_, map(_from_pkg_specifier, spec), RangeSpecifier()
+    )
+
+
+def _release_version(epoch: int, release: tuple[int, ...]) -> Version:
+    prefix = f"{epoch}!" if epoch else ""
+    return Version(f"{prefix}{'.'.join(map(str, release))}.0")
+
+
+def _next_series(version: Version, length: int) -> Version:
+    """The first release after all versions sharing the leading `length` release segments."""
+    release = version.release[:length]
+    return _release_version(version.epoch, (*release[:-1], release[-1] + 1))
+
+
+def _wildcard_bounds(version: str) -> tuple[Version, Version]:
+    """`X.Y.*` -> (X.Y.0, X.(Y+1).0), computed on the parsed release (epoch kept)."""
+    prefix = Version(version[: version.rindex(".*")])
+    return (
+        _release_version(prefix.epoch, prefix.release),
+        _next_series(prefix, len(prefix.release)),
     )
 
 
@@ -48,21 +66,12 @@ def _from_pkg_specifier(spec: Specifier) -> VersionSpecifier:
             include_min = True
             include_max = True
         else:
-            version_parts = list(
-                itertools.takewhile(lambda x: x != "*", version_split(version))
-            )
-            min = Version(".".join([*version_parts, "0"]))
-            version_parts[-1] = str(int(version_parts[-1]) + 1)
-            max = Version(".".join([*version_parts, "0"]))
+            min, max = _wildcard_bounds(version)
             include_min = True
             include_max = False
     elif op == "~=":
         min = Version(version)
-        version_parts = list(
-            itertools.takewhile(is_not_suffix, version_split(version))
-        )[:-1]
-        version_parts[-1] = str(int(version_parts[-1]) + 1)
-        max = Version(".".join([*version_parts, "0"]))
+        max = _next_series(min, len(min.release) - 1)
         include_min = True
         include_max = False
     elif op == "!=":
@@ -76,12 +85,7 @@ def _from_pkg_specifier(spec: Specifier) -> VersionSpecifier:
                 simplified=str(spec),
             )
         else:
-            version_parts = list(
-                itertools.takewhile(lambda x: x != "*", version_split(version))
-            )
-            left = Version(".".join([*version_parts, "0"]))
-            version_parts[-1] = str(int(version_parts[-1]) + 1)
-            right = Version(".".join([*version_parts, "0"]))
+            left, right = _wildcard_bounds(version)
             return UnionSpecifier(
                 (
                     RangeSpecifier(max=left, include_max=False),
